@@ -151,3 +151,38 @@ contract(
     abstract=['spec_compatible', 'kind_ok'], opaque=['ends_in_digit'], heap_invariants=['descriptors'],
     notes="data invariant: every 'bonding' list of every graph holds descriptors (kind symbol first, order digit last)",
 )
+
+
+def _ex_edges_from():
+    """Resolver objects stopped just before the bonds are made (real fragments, real base graphs)."""
+    import logging
+    logging.getLogger('pysmiles').setLevel(logging.ERROR)
+    import networkx as nx
+    from cgsmiles.resolve import MoleculeResolver
+    strings = [
+        ("{[#A][#B]}.{#A=CC[$],#B=[$]O}", True, True),
+        ("{[#A]=[#B]}.{#A=[$]=CC,#B=[$]=CO}", True, True),
+        ("{[#A][#B][#A]}.{#A=[>]CC[<],#B=[>]COC[<]}", True, True),
+        ("{[#A]|4}.{#A=[$]CC[$]}", True, True),
+        ("{[#A]1[#A][#A]1}.{#A=[$]cc[$]}", True, True),
+        ("{[#A]([#B])[#B]}.{#A=OC[$][$],#B=[$]CC}", True, True),
+        ("{[#A].[#B]}.{#A=CC[$],#B=[$]O}", True, True),
+        ("{[#A][#B]}.{#A=CC[$A],#B=[$B]O}", True, True),
+        ("{[#A][#B]}.{#A=CC[$A],#B=[$B]O}", True, False),
+        ("{[#A][#B]}.{#A=CC[>x],#B=[<y]O}", True, False),
+        ("{[#A][#B]}.{#A=[#a][#b][$],#B=[$][#c]}", False, True),
+        ("{[#A]=[#B][#A]}.{#A=[#a][$][$],#B=[$][$][#c][$]}", False, True),
+        ("{[#A][#B]}.{#A=CC[!],#B=[!]CO}", True, True),
+    ]
+    for s, all_atom, legacy in strings:
+        res = MoleculeResolver.from_string(s, last_all_atom=all_atom, legacy=legacy)
+        res.meta_graph = res.molecule
+        names = nx.get_node_attributes(res.meta_graph, "atomname") or nx.get_node_attributes(res.meta_graph, "fragname")
+        nx.set_node_attributes(res.meta_graph, nx.get_node_attributes(res.meta_graph, "fragname"), "fragname")
+        res.molecule = nx.Graph()
+        res.resolve_disconnected_molecule(res.fragment_dicts[0])
+        yield {'self': res, 'all_atom': all_atom}
+
+
+from pyvc.contract import lookup as _lookup   # noqa: E402
+_lookup('cgsmiles.resolve:MoleculeResolver.edges_from_bonding_descrpt').examples = _ex_edges_from
